@@ -116,6 +116,8 @@ type ilvGen struct {
 	kind       map[string]string
 	needConst  bool
 	needStdlib bool
+	keepN      int
+	kept       []string
 }
 
 func (g *ilvGen) intLits(n int) []*Node {
@@ -243,6 +245,17 @@ func (g *ilvGen) mutate() *Node {
 		// library calls that may keep process-wide tables (only meaningful with the stdlib loaded)
 		g.needStdlib = true
 		pat := PickStr(g.r, []string{"a+", "[0-9]+", "^x", "b|c", "a+b", "(ab)*", "k[a-c]", "z$"})
+		if g.r.Chance(1, 3) {
+			// a library result that is KEPT across later library calls (here and in other runtimes)
+			g.keepN++
+			name := fmt.Sprintf("kept%d", g.keepN)
+			g.kept = append(g.kept, name)
+			return Call("progn", Call("set", QS(name), PickNode(g.r,
+				Call("json:dump-bytes", Call("sorted-map", Str("k"), v, Str("c"), A("ctr"))),
+				Call("json:dump-string", Call("sorted-map", Str("k"), v, Str("c"), A("ctr"))),
+				Call("string:join", Call("map", QS("list"), A("to-string"), v), Str("-")),
+				Call("base64:encode", Call("to-bytes", Str("abc"))))), A(name))
+		}
 		return PickNode(g.r,
 			Call("regexp:regexp-match?", Str(pat), Str("xaab12kc")),
 			Call("json:dump-string", Call("sorted-map", Str("k"), v)),
@@ -357,6 +370,10 @@ func (ilvEngine) Gen(r *Rand, tier string) any {
 	}
 	for _, l := range g.lits {
 		body = append(body, g.litProbe(l))
+	}
+	for _, k := range g.kept {
+		// values kept from earlier library calls are looked at again at the very end
+		body = append(body, Call("sim:probe", QS("kept"), Call("ignore-errors", A(k))))
 	}
 	// definitions for macros msort/mapp/mtpl may be absent: references then fail the same way everywhere
 	pre := []*Node{Call("set", QS("ctr"), Call("+", I(1), Call("or", Call("ignore-errors", A("ctr")), I(0))))}
